@@ -169,7 +169,7 @@ func GenSteps(rt *rapid.T, cfg Config, o GenOpts) []Step {
 }
 
 var defaultActorWeights = map[int]int{AProposeHonest: 5, AProposeWeird: 5, AVote: 2, AAssembleQC: 3, ARelabelQC: 2, ATimeout: 3, ANewView: 4,
-		ARepeatQC: 1, AReplay: 2, AEquivocate: 3, AToggleFetch: 1, AVoteHonestly: 5, AForgedTC: 2, AProposeSkip: 4, AProposeStaleQC: 3, AProposeOnForged: 4, AHoldNext: 2, ARelease: 3, AProposeOldAgg: 4}
+		ARepeatQC: 1, AReplay: 2, AEquivocate: 3, AToggleFetch: 1, AVoteHonestly: 5, AForgedTC: 2, AProposeSkip: 4, AProposeStaleQC: 3, AProposeOnForged: 4, AHoldNext: 2, ARelease: 3, AProposeOldAgg: 4, AProposeRelabelledSigners: 3}
 
 func weightsList(w map[int]int) []int {
 	if w == nil {
